@@ -6,7 +6,9 @@ Streams sent to the Lean driver (Driver/C06.lean) and to the real `qcelemental`:
   P  parse_nucleus_label(label)       — grammar-derived labels, near-misses, random strings; the driver answers twice (hand recogniser,
                                         generic regex engine on the AST regenerated from regex.py) and both must equal CPython: three-way
   X  re.match/fullmatch/search        — the generic engine on the regenerated NUCLEUS / NUMBER / CHGMULT ASTs vs CPython's re (span + all groups)
-  R  reconcile_nucleus(**clues)       — elements/nuclides x clue subsets x perturbations x spellings x settings
+  R  reconcile_nucleus(**clues)       — elements/nuclides x clue subsets x perturbations x spellings x settings; the driver answers twice
+                                        (`<hand model> # <evaluator on the statements regenerated from nucleus.py>`): three-way with the implementation
+  F  parse_nucleus_label(label)       — the same labels as P through the source-derived field extraction (Gen/NucleusSrc.lean)
   H/C the same calls through the LRU memo model vs the real lru_cache (exact `real` type, eviction)
   R lines are also issued (a) at the edges of every setting: mtol in {0, 0.0, False, 1e-12 .. 2, True} with mass offsets on a
   log scale / in ulps / in multiples of mtol, falsy clue values (A=0, Z=0, E='', mass=0, label=''), (b) in other call shapes
@@ -31,10 +33,13 @@ import sys
 
 sys.path.insert(0, str(common.VERIF / "tools"))
 import gen_periodic  # noqa: E402
+import c06_src  # noqa: E402
 
 PROPERTY = "C06"
 LEAN_TARGETS = ["QcelVerif.Props.C06", "QcelVerif.Driver.C06", "QcelVerif.Model.RegexEngine", "QcelVerif.Gen.NucleusRegex", "QcelVerif.Model.NucleusRe",
-                "QcelVerif.Lemmas.RegexEngine", "QcelVerif.Lemmas.NucleusRegex", "QcelVerif.Props.C06Regex"]
+                "QcelVerif.Lemmas.RegexEngine", "QcelVerif.Lemmas.NucleusRegex", "QcelVerif.Props.C06Regex",
+                "QcelVerif.Model.NucleusAst", "QcelVerif.Gen.NucleusSrc", "QcelVerif.Lemmas.NucleusSrc", "QcelVerif.Props.C06Src",
+                "QcelVerif.Props.C06SrcGroups", "QcelVerif.Props.C06SrcShipped", "QcelVerif.Props.C06SrcHead"]
 DRIVER = "QcelVerif/Driver/C06.lean"
 THEOREMS = [
     ("QcelVerif.Nucleus.reconcile_sound", "ANY table (coherent at its default isotopes), ANY rounding function, ANY range table, ANY input: a successful reconciliation returns a table row (Z,E); every supplied Z / E / label-Z / label-E names Z; A equals every supplied A (argument, label); mass equals float() of every supplied mass (argument, label); A = -1 or E+str(A) is a tabulated nuclide whose mass equals the returned mass or is float-evaluated within mtol of it; unless nonphysical: A = -1 or inside the element's A range and fl(mmin-0.5) <= mass <= fl(mmax+0.5) (nonphysical: A = -1 or >= 1, mass > 0.5); real/ghost equals every real clue by value (argument, label marker), True if there is none; the user tag is the lower-cased label tag ('' if none)"),
@@ -73,11 +78,40 @@ THEOREMS = [
     ("QcelVerif.Nucleus.unparseable_iff_regex", "a label is rejected by the model ('not parseable') iff the generated regex has no way to match it"),
     ("QcelVerif.Nucleus.generated_wf", "the generated NUCLEUS, NUMBER and CHGMULT ASTs repeat no body that can match the empty string [decide] (the one situation in which the engine's fuel / CPython's empty-iteration rule would matter)"),
     ("QcelVerif.Nucleus.shipped_coherent", "shipped table [decide +kernel over the generated table]: E+str(to_A(Z)) is tabulated with the mass string of Z itself for every element (DefaultCoherent); Z -> symbol -> Z round-trips in strict mode; every nuclide mass string parses and lies within 1/4 u of its mass number"),
+    # ---- source-derived procedure (Model/NucleusAst.lean evaluated on Gen/NucleusSrc.lean, regenerated from nucleus.py on every run)
+    ("QcelVerif.Nucleus.Ast.reconcileSrc_eq_model", "ANY table whose to_mass fails only with NotAnElementError, ANY idempotent rounding function, ANY range table, EVERY clue tuple (A, Z, E, mass, real, label, speclabel, nonphysical, mtol) whose label captures are well-formed: the evaluator run on the statements regenerated from reconcile_nucleus (nested closures, order of the offers, every appended candidate and test lambda, the try/except, the nested reconcile, the returned tuple) = the hand model reconcileWith — same tuple or same error class AND feature"),
+    ("QcelVerif.Nucleus.Ast.matchNucleus_groupsOk", "EVERY byte string: every match of the NUCLEUS recogniser has well-formed captures — a participating group (A, Z, user1, user2, mass) is non-empty (so Python's truthiness test of a group is the participation test) and the mass group is digits.digits (float() of it cannot raise); discharges the capture hypothesis of reconcileSrc_eq_model"),
+    ("QcelVerif.Nucleus.Ast.shipped_mass_strings_parse", "shipped table [decide +kernel over the generated nuclide tree]: every mass string parses as digits[.digits]"),
+    ("QcelVerif.Nucleus.Ast.shipped_tableMass_ok", "shipped table, any rounding function, any key: to_mass answers or raises NotAnElementError, nothing else (discharges the table hypothesis of reconcileSrc_eq_model)"),
+    ("QcelVerif.Nucleus.Ast.reconcileSrc_eq", "under SrcOk (rounding idempotent, mass strings parse): source-derived reconcile_nucleus = model for ALL inputs and any range table — capture hypothesis discharged"),
+    ("QcelVerif.Nucleus.Ast.srcOk_shipped", "SrcOk holds for the shipped table under rd64 (rd64_idem + shipped_tableMass_ok): the hypotheses are satisfiable by what the driver runs"),
+    ("QcelVerif.Nucleus.Ast.reconcileSrc_shipped_eq", "shipped table, binary64 rounding, any range table, EVERY clue tuple: source-derived reconcile_nucleus = model — no hypothesis left"),
+    ("QcelVerif.Nucleus.Ast.driver_src_eq", "what Driver/C06.lean prints after '#' on an R line (source-derived procedure over the memoised range table) = reconcile shippedN rd64, for every input"),
+    ("QcelVerif.Nucleus.Ast.parseSrc_eq_model", "EVERY byte string, any table/rounding: the source-derived parse_nucleus_label (matchNucleus + the regenerated group-reading statements: truthiness tests, int(), float(), not(gh1 or gh2), user1/user2 precedence, returned tuple order, raised class) = the model's parseLabel (refusal iff no match; the six fields, mass through float)"),
+    ("QcelVerif.Nucleus.Ast.parseFields_eq", "any match object with well-formed captures: the regenerated field-extraction statements return exactly (A, Z, E, mass, real, user) of the model's Label"),
+    ("QcelVerif.Nucleus.Ast.fn1_exec", "offer_atomic_number as regenerated (int(z), to_E/to_mass/to_A of z, _el2a2mass min/max, the three candidates, the nonphysical branches and their lambdas) executed symbolically = srcOfferZ; any state, any argument"),
+    ("QcelVerif.Nucleus.Ast.fn0_exec", "offer_element_symbol as regenerated = to_Z(e, strict=True) then offer_atomic_number"),
+    ("QcelVerif.Nucleus.Ast.fn2_exec", "offer_mass_number as regenerated = candidate a / test x == a, candidate to_mass(E+str(a)) / test abs(x - a_mass) <= mtol"),
+    ("QcelVerif.Nucleus.Ast.fn3_exec", "offer_mass_value as regenerated = the model's massToA (round-half-even, > mtol strict, except NotAnElementError only) and the exact-mass candidate/test"),
+    ("QcelVerif.Nucleus.Ast.fn4_exec", "offer_reality as regenerated = candidate rgh / test x == rgh"),
+    ("QcelVerif.Nucleus.Ast.fn5_exec", "offer_user_label as regenerated = candidate str(lbl).lower() / test x == lbl"),
+    ("QcelVerif.Nucleus.Ast.reconcileSrc_sound", "soundness clause (statement of reconcile_sound) over the source-derived procedure: table row, every clue honoured, nuclide within mtol or -1, physical range unless nonphysical, real/ghost by value (True by default), user tag = lower-cased label tag"),
+    ("QcelVerif.Nucleus.Ast.reconcileSrc_default", "source-derived procedure: no A / mass clue and success -> the table's default isotope and its mass"),
+    ("QcelVerif.Nucleus.Ast.reconcileSrc_supplied_A_window", "source-derived procedure: a supplied mass number is returned, is tabulated, and the returned mass lies in its closed mtol window"),
+    ("QcelVerif.Nucleus.Ast.reconcileSrc_conflict_element", "source-derived procedure: two element clues naming different atomic numbers -> error"),
+    ("QcelVerif.Nucleus.Ast.reconcileSrc_conflict_element_validation", "source-derived procedure: element clues each naming an element but disagreeing -> exactly ValidationError('atomic number')"),
+    ("QcelVerif.Nucleus.Ast.reconcileSrc_conflict_mass_number", "source-derived procedure: two different mass-number clues -> error"),
+    ("QcelVerif.Nucleus.Ast.reconcileSrc_conflict_mass", "source-derived procedure: two different mass clues -> error"),
+    ("QcelVerif.Nucleus.Ast.reconcileSrc_conflict_mass_number_vs_mass", "source-derived procedure: mass-number clue vs a mass outside its mtol window -> error"),
+    ("QcelVerif.Nucleus.Ast.reconcileSrc_conflict_real", "source-derived procedure: real/ghost clues with different values -> error"),
+    ("QcelVerif.Nucleus.Ast.reconcileSrc_unparseable_label", "source-derived procedure: a label offered as nucleus specification that NUCLEUS does not match -> error"),
 ]
 TRANSLATORS = [gen_periodic.main]  # + gen_nucleus_regex (defined and appended below)
 TRUSTED_BASE = [
     "Lean 4.33 kernel; axioms per theorem audited on every run (subset of propext, Classical.choice, Quot.sound)",
-    "hand-written model Model/Nucleus.lean of nucleus.py:13-437 (reconciliation, field extraction of parse_nucleus_label) tied by differential correspondence on the generated streams (R, P, D, G, H lines); its NUCLEUS recogniser is no longer trusted by transcription: it is PROVED equal, on every byte string, to the generic engine run on the AST regenerated from regex.py (matchNucleus_eq_regex)",
+    "hand-written model Model/Nucleus.lean of nucleus.py:13-437: no longer trusted by transcription. Its NUCLEUS recogniser is PROVED equal, on every byte string, to the generic engine run on the AST regenerated from regex.py (matchNucleus_eq_regex); its reconciliation logic (reconcileWith) and its field extraction (parseLabel) are PROVED equal, for every clue tuple / every byte string, to the evaluator of Model/NucleusAst.lean run on the statements regenerated from nucleus.py (reconcileSrc_eq_model, parseSrc_eq_model; unconditional for the shipped table under rd64: reconcileSrc_shipped_eq, driver_src_eq). What stays differential (R, P, F, D, G, H lines, now three-way on every R line and on every label): that the evaluator's reading of each Python construct is CPython's",
+    "harness/c06_src.py (translator, Python ast -> Lean term, on every run): one Stmt per source statement of reconcile_nucleus and of parse_nucleus_label's matched branch, nested closures included; lambdas become closures (default-bound parameters captured at append time, free variables mtol/mmtol read when the test runs); refuses (`Unsupported: nucleus.py:<line>`) any construct outside its subset. Recognised as a whole, shape-checked, not translated statement by statement: logging (log_text, text.append(str.format), print — dropped; their arguments may only call format/join/all) and the nested reconcile(exact, tests, feature) (-> RecDef: all/any, raised class, message prefix). Variable numbering and the parameter order (A..verbose = 0..9) are the translator's",
+    "Model/NucleusAst.lean (evaluator, hand-written, ~45 constructors): Python semantics of the modelled subset — is None / is not None / is True, truthiness, lazy and/or, == and ordering on numbers by value and ==/!= on strings, int()/float()/str()/round(x,0)/abs(), str + str, one IEEE operation per float +/- (parameter rd), list append, lambda default capture vs late-bound free variables, every test of a candidate evaluated before all(...), try/except NotAnElementError with no effect before the raise, tuple unpacking; periodic-table accessors are primitives evaluated on the model's table structure (to_Z/to_E with strict, to_A, to_mass, _el2a2mass[..] through its min/max). A type error / unbound name / KeyError is Err.other, never defaulted. Checked against CPython only differentially (the R/F three-way)",
     "harness/c06.py:gen_nucleus_regex + harness/regex_gen.py (translator): reads regex.py (executed from the working tree) and nucleus.py's re.compile call / entry point / groups read (syntax tree), parses the assembled pattern with CPython's re._parser and re-encodes the parse tree constructor by constructor; folds IGNORECASE into ASCII classes (each emitted class cross-checked on all 128 ASCII characters against CPython compiling that node); refuses any construct the engine lacks",
     "Model/RegexEngine.lean (generic backtracking engine: ordered alternation, greedy/lazy {m,n}, capture = last completed iteration, (?(g)..), anchors) is taken to have CPython `re` semantics on the generated ASTs: checked differentially — P lines three-way (CPython / hand recogniser / engine), X lines re.match / re.fullmatch / re.search with spans and every group on NUCLEUS, NUMBER and CHGMULT — not proved (there is no formal semantics of sre to prove it against); what IS proved: the engine equals its list-of-successes semantics and, for NUCLEUS, the hand recogniser",
     "tools/gen_periodic.py (C01's translator) for the nuclide table; cross-checked by the G lines against periodictable._el2a2mass",
@@ -87,8 +121,9 @@ TRUSTED_BASE = [
     "documented defaults of reconcile_nucleus (clues None, speclabel=True, nonphysical=False, mtol=1.0e-3: signature + docstring) are what an omitted option means; numpy's list -> ndarray conversion in validate_and_fill_nuclei keeps every clue equal by value (==)",
 ]
 ASSUMPTIONS = [
+    "source-derived procedure: `verbose` only feeds logging (any other use evaluates to Err.other and breaks reconcileSrc_eq_model); int(matchobj.group(..)) is applied to a \\d+ capture (the evaluator reads the digits; a non-digit string is outside the subset); the gh1/gh2 groups are only tested for truth; rounding function idempotent (float(x) of a float is x — proved for rd64) and tabulated mass strings parse (proved for the shipped table by kernel evaluation) — for other tables these two are hypotheses (SrcOk)",
     "ASCII labels and symbols only (CPython's \\w, \\d, [A-Z] with IGNORECASE are Unicode-aware; the translator restricts classes to ASCII and refuses non-ASCII literals)",
-    "the eight groups parse_nucleus_label reads are taken from the engine's captures as 'participated / did not' (Python tests their truthiness: the same thing as long as a participating group is non-empty, which holds for NUCLEUS — every named group contains a mandatory character; a pattern edit that breaks this shows up as a three-way disagreement on the P lines)",
+    "the eight groups parse_nucleus_label reads: the hand model's parseLabel takes them as 'participated / did not' while Python tests their truthiness — now PROVED to be the same thing for the hand recogniser (matchNucleus_groupsOk: every participating group of every match is non-empty, the mass group is digits.digits) and the source-derived field extraction uses real truthiness (parseSrc_eq_model); for the generic engine on the regenerated AST this rests on matchNucleus_eq_regex",
     "regex engine: patterns whose repetitions have non-nullable bodies (generated_wf; the translator refuses others, CPython's empty-iteration rule is not modelled); back-references, look-around, atomic/possessive constructs and scoped inline flags are refused by the translator (broken tie), not modelled",
     "A, Z, mass, real, mtol are int | float | bool with integral Z and A (int(1.5) == 1 would 'match' a clue it does not equal); speclabel and nonphysical are real bools (`speclabel is True` makes speclabel=1 behave differently from True although both share a cache key)",
     "mtol >= 0 (with a negative tolerance not even the default isotope is 'within the tolerance'); 0 <= mtol <= 0.25 u in the oracle's feedback clause (mtol = 0 / 0.0 / False included: exact-mass matching): a window wide enough to reach a neighbouring nuclide (e.g. A=2, Z=1, mtol=2 returns A=2 with the mass of H1) is outside the physical meaning of mtol; finite masses",
@@ -99,6 +134,7 @@ ASSUMPTIONS = [
     "physical-range clause checked in exact rationals with a 1e-9 u exclusion band at the two edges (fl(mmax+0.5) may round); the Lean model evaluates the edges bit-exactly",
 ]
 RULE = (
+    "EVERY R line (all streams below, replays and array batches included) is answered by the driver twice — hand model and the evaluator on the statements regenerated from nucleus.py — and compared three ways with the implementation; every P label additionally goes through the source-derived field extraction (F line). "
     "R cases = (target nuclide or element) x subset of the 6 clue kinds {A,Z,E,mass,real,label} x variant {consistent | other element in "
     "one element clue | non-existent A | second A | mass off by 1e-4, mtol-/+ulp, mtol, 0.4, 0.6, 2 u | element-range edge -/+ ulp | real vs ghost flipped | "
     "non-symbol E (nuclide label, name, digits) | unparseable label} x label spelling (case, @/Gh(/gh(, leading A, _tag/digit tag, @mass) x "
@@ -116,6 +152,10 @@ RULE = (
     "siblings that differ only in one setting (mtol / nonphysical / speclabel / verbose / call shape) issued back to back."
 )
 LEVEL_TEXT = (
+    "the DECISION CODE of nucleus.py (reconcile_nucleus with its nested closures, parse_nucleus_label's field extraction) is regenerated from the source on every run as a statement/expression term and PROVED equal to the hand model for every clue tuple and every label "
+    "(any table with parsing mass strings, any idempotent rounding; no hypothesis for the shipped table under rd64), so every C06 theorem now speaks about a function derived from the source text and an edit of the logic "
+    "(comparison operator, order of offers, argument of an accessor, inverted flag, dropped .lower()) breaks a proof obligation; each R line and each label is answered three ways (implementation / hand model / source-derived); "
+    "what remains trusted there is the translator and the evaluator's reading of each Python construct (differential only); "
     "the label grammar is regenerated from the source on every run (CPython's parse tree of NUCLEUS as compiled in nucleus.py) and the model's recogniser is proved equal to the generic regex engine on that AST for every byte string "
     "(so an edit of the pattern breaks a proof obligation instead of going unnoticed); that the engine itself behaves like CPython's re is differential only (three-way P lines, X lines on NUMBER/CHGMULT), ASCII only; "
     "proof of soundness/default/conflict/history clauses for the model over any table and any rounding function; feedback (idempotence) proved in full "
@@ -123,7 +163,7 @@ LEVEL_TEXT = (
     "sampled + per-table-exhaustive differential correspondence, so the tie is evidence, not proof; settings are explored at their edges (mtol = 0 proved exact "
     "for the model and sampled on the code), omitted options are tied to the documented defaults and the array entry points to the scalar one by sampling only"
 )
-TECHNIQUE = "Lean 4 proof (structural: first-passing-candidate inversion, LRU invariant by induction over histories, regex engine = list semantics = hand recogniser by stage-wise symbolic evaluation of the generated AST) + translator from CPython's regex parse tree + differential correspondence + Python oracle"
+TECHNIQUE = "Lean 4 proof (source-to-Lean translator for the decision code + evaluator + symbolic execution of the generated statements against a representation invariant; structural: first-passing-candidate inversion, LRU invariant by induction over histories, regex engine = list semantics = hand recogniser by stage-wise symbolic evaluation of the generated AST) + translator from CPython's regex parse tree + differential correspondence + Python oracle"
 
 MTOLS = [1.0e-3, 1.0e-3, 1.0e-3, 1.0e-4, 1.0e-2, 1.0e-6, 0.1, 0.125, 0.25]
 BAND = Fraction(1, 10**9)
@@ -276,6 +316,7 @@ def gen_nucleus_regex(ctx=None) -> None:
 
 
 TRANSLATORS.append(gen_nucleus_regex)
+TRANSLATORS.append(c06_src.gen_nucleus_src)  # Gen/NucleusSrc.lean <- nucleus.py's decision code, statement by statement
 
 
 # ----------------------------------------------------------------------------------------
@@ -1408,10 +1449,51 @@ def check_R(ctx, out: Outcome, c, model_line, do_feedback=True):
     if do_feedback:
         check_feedback(c, res, out, jc)
     if model_line is not None:
-        cm = canon_model(model_line)
+        # three-way: implementation / hand model / evaluator on the statements regenerated from nucleus.py (`<hand> # <src>`)
+        hand, src = split_R(model_line)
+        cm = canon_model(hand)
         if cm != ci:
             out.mismatches.append(Finding("mismatch:reconcile", {"op": "R", "case": jc}, observed=ci, expected=cm, detail="implementation vs Lean model: " + enc_case(c)))
+        if src is None:
+            out.mismatches.append(Finding("mismatch:reconcile_src", {"op": "R", "case": jc}, observed=ci, expected=model_line,
+                                          detail="the driver did not answer with both the hand model and the source-derived procedure"))
+        else:
+            if canon_model(src) != ci:
+                out.mismatches.append(Finding("mismatch:reconcile_src", {"op": "R", "case": jc}, observed=ci, expected=canon_model(src),
+                                              detail="implementation vs the evaluator run on the statements regenerated from nucleus.py (Gen/NucleusSrc.lean): " + enc_case(c)))
+            if src != hand:
+                out.mismatches.append(Finding("mismatch:hand_vs_src", {"op": "R", "case": jc}, observed=src, expected=hand,
+                                              detail="Lean hand model vs source-derived procedure (theorem reconcileSrc_eq_model no longer describes the source): " + enc_case(c)))
+            else:
+                out.count("reconcile_three_way_agree")
     return res
+
+
+def split_R(ml):
+    """driver answer of an R line: `<hand model> # <source-derived>` -> (hand, src | None)"""
+    if ml is None:
+        return None, None
+    hand, sep, src = ml.partition(" # ")
+    return hand, (src if sep else None)
+
+
+def check_F(out: Outcome, label: str, ml, hand_line=None):
+    """parse_nucleus_label: CPython vs the source-derived group reading (Gen/NucleusSrc.lean through Model/NucleusAst.lean)
+    on the hand recogniser's match object; also against the hand model's own field extraction (P line)"""
+    if ml is None:
+        return
+    ci = canon_parse(impl_parse(label))
+    out.evaluations += 1
+    out.count("stream:parse_src")
+    case = {"op": "F", "label": label}
+    if ml != ci:
+        out.mismatches.append(Finding("mismatch:parse_src", case, observed=ci, expected=ml,
+                                      detail="parse_nucleus_label vs the field extraction regenerated from nucleus.py"))
+    if hand_line is not None:
+        hand = canon_parse_model(hand_line.partition(" # ")[0])
+        if hand != ml:
+            out.mismatches.append(Finding("mismatch:parse_hand_vs_src", case, observed=ml, expected=hand,
+                                          detail="hand model's parseLabel vs source-derived field extraction (theorem parseSrc_eq_model no longer describes the source)"))
 
 
 def history_stream(ctx, out: Outcome, cases):
@@ -1588,11 +1670,16 @@ def run(ctx: Ctx) -> Outcome:
     for name, mode, t in xs:
         lines.append(f"X {name} {mode} {hexs(t)}")
         checks.append(("regex", (name, mode, t), None))
+    # ---- source-derived field extraction of parse_nucleus_label on every P label (appended last: earlier streams keep their sequence)
+    for l in labels:
+        lines.append("F " + hexs(l))
+        checks.append(("parse_src", l, None))
     model = [None] * len(lines)
     if ctx.model_available:
         model = ctx.run_model(DRIVER, lines)
     _rn().cache_clear()
     ml_of = {}
+    p_of = {}
     for (kind, payload, exp), ml in zip(checks, model):
         if kind in ("float", "range"):
             out.evaluations += 1
@@ -1602,12 +1689,15 @@ def run(ctx: Ctx) -> Outcome:
                                               detail="CPython float()/_el2a2mass vs Lean rd64/elRange"))
         elif kind == "parse":
             check_P(out, payload, ml)
+            p_of[payload] = ml
+        elif kind == "parse_src":
+            check_F(out, payload, ml, p_of.get(payload))
         elif kind == "regex":
             check_X(out, payload, ml)
         else:
             check_R(ctx, out, payload, ml)
             if ml is not None:
-                ml_of[enc_case(payload)] = ml
+                ml_of[enc_case(payload)] = split_R(ml)[0]
     array_stream(ctx, out, cases, ml_of)
     history_stream(ctx, out, cases)
     out.exhaustive = False
@@ -1635,6 +1725,10 @@ def replay(ctx: Ctx, case) -> Outcome:
         l = case["label"]
         ml = ctx.run_model(DRIVER, ["P " + hexs(l)])[0] if ctx.model_available else None
         check_P(out, l, ml, count=False)
+    elif op == "F":
+        l = case["label"]
+        mls = ctx.run_model(DRIVER, ["P " + hexs(l), "F " + hexs(l)]) if ctx.model_available else [None, None]
+        check_F(out, l, mls[1], mls[0])
     elif op == "X":
         payload = (case["name"], case["mode"], case["text"])
         ml = ctx.run_model(DRIVER, [f"X {payload[0]} {payload[1]} {hexs(payload[2])}"])[0] if ctx.model_available else None
@@ -1657,7 +1751,7 @@ def replay(ctx: Ctx, case) -> Outcome:
     elif op == "V":
         atoms = [case_unjson(j) for j in case["atoms"]]
         _rn().cache_clear()
-        mls = ctx.run_model(DRIVER, ["R " + enc_case(a) for a in atoms]) if ctx.model_available else [None] * len(atoms)
+        mls = [split_R(m)[0] for m in ctx.run_model(DRIVER, ["R " + enc_case(a) for a in atoms])] if ctx.model_available else [None] * len(atoms)
         check_V(ctx, out, case["entry"], atoms, case["shape"], mls)
     elif op == "H":
         lines = ["C"] + [("C" if l == "C" else "H " + l) for l in case["lines"]]
